@@ -95,9 +95,23 @@ class Ctx(object):
         self.ssvc.conn_ref = weakref.ref(self.sconn)
         self.csvc.conn_ref = weakref.ref(self.cconn)
         self.out = []          # (request label, outcome)
+        self.early = []        # moments at which the client reported closed before its cleanup had happened
         self.threads = []
 
+    def observe(self, where):
+        """"its disconnect hook has run exactly once by the time it reports closed" and what it held is released: looked at
+        by the thread that uses the connection, between its own operations (so never in the middle of its own close())"""
+        c = self.cconn
+        if c.closed and (self.csvc.disconnects != 1 or c._local_objects._dict):
+            self.early.append((where, self.csvc.disconnects, len(c._local_objects._dict)))
+
     def req(self, label, fn, expect):
+        try:
+            return self._req(label, fn, expect)
+        finally:
+            self.observe(label)
+
+    def _req(self, label, fn, expect):
         try:
             v = fn()
             self.out.append((label, "value", v == expect if expect is not None else True, repr(v)[:80]))
@@ -236,6 +250,7 @@ def run(wname, cut, choices=(), state_fn=None, cut_fn=None, sync_points=False):
         st = S.SimThread(target=server, name="server")
         st.start()
         wl(x)
+        x.observe("after-workload")
         # make sure the server side learns the client is done (a client normally closes or goes away)
         if wname not in ("client-close",):
             try:
@@ -291,6 +306,8 @@ def run(wname, cut, choices=(), state_fn=None, cut_fn=None, sync_points=False):
         viol.append(("second-close-ran-hook-again", repr(box["hooks2"])))
     if box["tables"] != (0, 0):
         viol.append(("tables-not-released:%r" % (box["tables"],), ""))
+    if x.early:
+        viol.append(("reports-closed-before-hook-and-release", "client reported closed at %r (hook runs, objects held)" % (x.early[:3],)))
     for label, kind, ok, text in x.out:
         if kind.startswith("exc:"):
             viol.append(("request-failed-with-%s" % kind[4:], "%s: %s" % (label, text)))
